@@ -21,6 +21,8 @@ DIAG = "diagnostic path (arguments of trace! / debug-only instruction trace): de
 OFFS = "byte offsets computed by char_indices()/len() of the same string with start <= end (char_substring_offset / nth); units checked by R15a"
 
 TRIAGE = [
+    (r"^number::ratio_(add|sub|div)$", r"ratio", "both operands are 32-bit rationals widened to 64 bits by number::widen: the cross products "
+     "a sum, a difference or a quotient is formed from are below 2^62 and their sum below 2^63; ratio_div returns for a zero divisor first"),
     (r"^vm::compile::<Vm>::transform_procedure_application$", r"unwrap", "under rest.is_list(): Cell::is_list holds only for a non-empty proper list, which has a car and a cdr", r"cell::Cell::c[ad]r\(v:Cell\)"),
     (r"^number::approximate$", r"ratio", "arbitrary-precision rationals: the product cannot overflow, and the quotient is formed only in the arm "
      "whose guard found the divisor's numerator non-zero (the zero-divisor case takes the float arm below it)"),
